@@ -369,6 +369,26 @@ class Executor:
             return v.t
         raise Inconclusive(f"discriminant of {v!r}")
 
+    def all_discr_ranges(self):
+        """range constraints for the discriminants of all lazily created enum objects whose type is in the enum table"""
+        cs = []
+        objs = {}
+        for (oid, key), v in self.lazy_tab.items():
+            if isinstance(v, Lazy):
+                objs[v.oid] = v
+        for (oid, key), d in self.lazy_tab.items():
+            if key == ("discr",) and z3.is_expr(d):
+                o = objs.get(oid)
+                ty = o.ty if o is not None else None
+                if ty is None:
+                    for v in self.havoc_memo.values():
+                        if isinstance(v, Lazy) and v.oid == oid:
+                            ty = v.ty
+                vs = self.enums.variants(ty) if ty else None
+                if vs:
+                    cs.append(z3.ULT(d, z3.BitVecVal(len(vs), 64)))
+        return cs
+
     def discr_range(self, v):
         """constraint: discriminant of lazy enum v is a valid variant index (None if unknown enum)"""
         if isinstance(v, Lazy):
